@@ -22,6 +22,7 @@ import (
 type corpusSpec struct {
 	module, cfg string
 	every       int // keep every n-th definite record
+	must        string // records whose key matches are always kept
 }
 
 func (c *Ctx) loadCorpus(specs []corpusSpec, want func(*SemRec) bool) []*SemRec {
@@ -52,8 +53,12 @@ func (c *Ctx) loadCorpus(specs []corpusSpec, want func(*SemRec) bool) []*SemRec 
 		})
 		// TLC emits in a worker-dependent order: sample from the sorted list so that a seed selects the same programs
 		sort.Slice(all, func(i, j int) bool { return all[i].Key < all[j].Key })
+		var must *regexp.Regexp
+		if s.must != "" {
+			must = regexp.MustCompile(s.must)
+		}
 		for k, rec := range all {
-			if (k+c.Seed)%s.every == 0 {
+			if (k+c.Seed)%s.every == 0 || (must != nil && must.MatchString(rec.Key)) {
 				out = append(out, rec)
 			}
 		}
@@ -77,10 +82,12 @@ const exampleStdin = "রহিম\n২৫\nline three\nline four\nline five\nli
 
 func checkC13(c *Ctx) {
 	rFresh, rSame := 24, 40
-	sel := []corpusSpec{{"FamObjects", "FamObjects_quick.cfg", 9}, {"FamOrder", "FamOrder_quick.cfg", 3}, {"FamWild", "FamWild_quick.cfg", 60}, {"FamCalls", "FamCalls_quick.cfg", 20}}
+	sel := []corpusSpec{{"FamObjects", "FamObjects_quick.cfg", 9, `^litnf[ab]:o;(litnf[ab]:p;|write:o\.[abc];|del:o\.[abc];)?(\|quiet)?$`}, {"FamOrder", "FamOrder_quick.cfg", 3, ""}, {"FamWild", "FamWild_quick.cfg", 60, ""}, {"FamCalls", "FamCalls_quick.cfg", 20, ""},
+		{"FamFaults", "FamFaults_quick.cfg", 12, "two-faults"}}
 	if c.Tier == "thorough" {
 		rFresh, rSame = 200, 300
-		sel = []corpusSpec{{"FamObjects", "FamObjects_quick.cfg", 3}, {"FamOrder", "FamOrder_quick.cfg", 1}, {"FamWild", "FamWild_quick.cfg", 15}, {"FamCalls", "FamCalls_quick.cfg", 5}, {"FamArrays", "FamArrays_quick.cfg", 10}}
+		sel = []corpusSpec{{"FamObjects", "FamObjects_quick.cfg", 3, "litnf"}, {"FamOrder", "FamOrder_quick.cfg", 1, ""}, {"FamWild", "FamWild_quick.cfg", 15, ""}, {"FamCalls", "FamCalls_quick.cfg", 5, ""}, {"FamArrays", "FamArrays_quick.cfg", 10, ""},
+			{"FamFaults", "FamFaults_quick.cfg", 2, "two-faults"}}
 	}
 	corpus := c.loadCorpus(sel, nil)
 	// programs that rebind a built-in name: state that must not leak from one execution to the next in the same process
@@ -476,12 +483,12 @@ var transforms = []transform{
 }
 
 func checkC18(c *Ctx) {
-	sel := []corpusSpec{{"FamControl", "FamControl_quick.cfg", 6}, {"FamCalls", "FamCalls_quick.cfg", 2}, {"FamFaults", "FamFaults_quick.cfg", 3}, {"FamArrays", "FamArrays_quick.cfg", 12},
-		{"FamObjects", "FamObjects_quick.cfg", 12}, {"FamOrder", "FamOrder_quick.cfg", 2}, {"FamScope", "FamScope_quick.cfg", 12}}
+	sel := []corpusSpec{{"FamControl", "FamControl_quick.cfg", 6, ""}, {"FamCalls", "FamCalls_quick.cfg", 2, ""}, {"FamFaults", "FamFaults_quick.cfg", 3, ""}, {"FamArrays", "FamArrays_quick.cfg", 12, ""},
+		{"FamObjects", "FamObjects_quick.cfg", 12, ""}, {"FamOrder", "FamOrder_quick.cfg", 2, ""}, {"FamScope", "FamScope_quick.cfg", 12, ""}, {"FamOps", "FamOps_quick.cfg", 60, "^chain"}}
 	reps := 1
 	if c.Tier == "thorough" {
-		sel = []corpusSpec{{"FamControl", "FamControl_quick.cfg", 1}, {"FamCalls", "FamCalls_quick.cfg", 1}, {"FamFaults", "FamFaults_quick.cfg", 1}, {"FamArrays", "FamArrays_quick.cfg", 2},
-			{"FamObjects", "FamObjects_quick.cfg", 2}, {"FamOrder", "FamOrder_quick.cfg", 1}, {"FamScope", "FamScope_quick.cfg", 2}, {"FamWild", "FamWild_quick.cfg", 3}}
+		sel = []corpusSpec{{"FamControl", "FamControl_quick.cfg", 1, ""}, {"FamCalls", "FamCalls_quick.cfg", 1, ""}, {"FamFaults", "FamFaults_quick.cfg", 1, ""}, {"FamArrays", "FamArrays_quick.cfg", 2, ""},
+			{"FamObjects", "FamObjects_quick.cfg", 2, ""}, {"FamOrder", "FamOrder_quick.cfg", 1, ""}, {"FamScope", "FamScope_quick.cfg", 2, ""}, {"FamWild", "FamWild_quick.cfg", 3, ""}, {"FamOps", "FamOps_quick.cfg", 8, "^chain"}}
 		reps = 4
 	}
 	corpus := c.loadCorpus(sel, func(r *SemRec) bool {
@@ -521,6 +528,12 @@ func checkC18(c *Ctx) {
 					src, _ = Render(toks, o)
 				}
 				tcs = append(tcs, tcase{rec, tf.name, src, tf.keepLine})
+			}
+			if len(rec.Full) > 0 && rep == 0 {
+				// (e) the two parenthesisations of one tree: only the parentheses the grammar needs / every one it allows
+				s1, _ := Render(rec.Toks, nil)
+				s2, _ := Render(rec.Full, nil)
+				tcs = append(tcs, tcase{rec, "e:minimal-parentheses", s1, true}, tcase{rec, "e:full-parentheses", s2, true})
 			}
 			toks := rec.Toks
 			ro := &RenderOpts{}
@@ -566,7 +579,7 @@ func checkC18(c *Ctx) {
 	c.addInt("traces_validated_against_impl", ne)
 	c.cov("programs", len(corpus))
 	c.cov("exhaustive", false)
-	c.cov("rule", "programs already executed by the specification (control, calls, faults, arrays, objects, evaluation order, scopes; thorough: random programs) and the shipped examples x the transformation families (a) blanks / tabs / line and block comments / line breaks between any two tokens except inside a var declaration, (b) digits of numeric literals swapped per digit between scripts, (c) && / and, || / or exchanged, (d) consistent renaming of variables, functions and parameters to Latin or Bangla identifiers incl. ones that NFC would rewrite (property names are data and keep their spelling), (e) literals wrapped in 1-3 parentheses and doubled condition parentheses, (f) if(false) blocks, unused functions and never-entered loops inserted at statement-sequence positions - each alone and in random combination; the transformed program must behave as the specification prescribes for the original (diagnostic lines are not compared when the layout changes)")
+	c.cov("rule", "programs already executed by the specification (control, calls, faults, arrays, objects, evaluation order, scopes; thorough: random programs) and the shipped examples x the transformation families (a) blanks / tabs / line and block comments / line breaks between any two tokens except inside a var declaration, (b) digits of numeric literals swapped per digit between scripts, (c) && / and, || / or exchanged, (d) consistent renaming of variables, functions and parameters to Latin or Bangla identifiers incl. ones that NFC would rewrite (property names are data and keep their spelling), (e) literals wrapped in 1-3 parentheses, doubled condition parentheses, and for the operator chains (every pair of binary operators in both groupings, unary around / inside binary, and/or chains) the minimally and the fully parenthesised rendering of the same tree, (f) if(false) blocks, unused functions and never-entered loops inserted at statement-sequence positions - each alone and in random combination; the transformed program must behave as the specification prescribes for the original (diagnostic lines are not compared when the layout changes)")
 	c.Ev.Assumptions = []string{"the transformations are meaning-preserving by the language definition: each is applied on the token list of a program whose tree is known"}
 }
 
